@@ -446,9 +446,32 @@ def run_tree(ctx, p):
         check_object(ctx, 'class.op', result, clsname, sig, what)
         ctx.cell('op', clsname, op, lens)
     try:
-        trees.evaluate(tree, obs)
+        top = trees.evaluate(tree, obs)
     except trees.Abort:
-        pass
+        return
+    # "quaternion-to-matrix" and back on the value the tree produced, single- or multi-valued: every element of the converted
+    # object is a member of the class it was converted to, one per value
+    if not operands_valid([top], clsname):
+        return
+    sm = ctors.cls
+    conv = {'UnitQuaternion': [('UnitQuaternion.SO3()', 'SO3', lambda x: x.SO3()), ('UnitQuaternion.SE3()', 'SE3', lambda x: x.SE3())],
+            'SO3': [('UnitQuaternion(SO3)', 'UnitQuaternion', lambda x: sm('UnitQuaternion')(x))],
+            'SE3': [('UnitQuaternion(SE3)', 'UnitQuaternion', lambda x: sm('UnitQuaternion')(x))],
+            'SO2': [('SO2.SE2()', 'SE2', lambda x: x.SE2())], 'SE2': [('SE2.SE3()', 'SE3', lambda x: x.SE3())]}.get(clsname, [])
+    for name, target, f in conv:
+        sig = dict(api=name, lens='1' if len(top) == 1 else 'M')
+        what = lambda: '%s of a %s holding %d value(s) %s' % (name, clsname, len(top), core.short(top.data, 300))
+        try:
+            r = f(top)
+        except ValueError:
+            ctx.ood('class.op')      # the converting constructor re-validates with its own (100 eps) test, which a value that has
+            continue                 # drifted through several products may fail: a refusal, not a returned non-member
+        except Exception as exc:
+            ctx.bad('class.op', dict(sig, kind='raised', exc=type(exc).__name__, where=_where(exc)), '%s raised %r' % (what(), exc))
+            continue
+        if check_object(ctx, 'class.op', r, target, sig, what):
+            ctx.judge('class.op', len(r) == len(top), dict(sig, kind='wrong_number_of_values'), lambda: '%s gives %d value(s)' % (what(), len(r)))
+        ctx.cell('op', clsname, name, sig['lens'])
 
 
 def _where(e):
